@@ -52,6 +52,20 @@ CLAIMED = {
         note="Trusted: construction of Tract/TRS objects from abstract shapes; identity of elements by id(). Township/range "
              "0 and partially interpreted keys ('t.foo') are outside the claim.",
         design_ref="§5.10, §6 C17"),
+    "C01": dict(
+        technique="TLA+ grammar of the four documented layouts as a transition system with a denotation, enumerated by "
+                  "TLC; every document shape rendered with random documented spellings and parsed; TLC trace validation "
+                  "of tracts, layout, error flags and the pretty_desc round trip against Denotation",
+        text="TLC enumerates every document shape (layout x Twp/Rge groups x section groups x single/and/range/mixed list) "
+             "within the bound and checks the denotation's shape; each shape is rendered several times (Twp/Rge and Section "
+             "spellings, separators, connectors, numbers, blocks incl. lots, aliquots, prose, trailing periods) and parsed "
+             "with default settings; TLC evaluates on each observation: deduced layout = written layout, tracts = "
+             "Denotation(doc) in order with the block verbatim, no error flag, and PLSSDesc(pretty_desc()) gives the same "
+             "tracts (descriptions modulo white-space runs).",
+        note="Trusted: the rendering vocabularies and layout templates (harness/render.py, harness/plssdoc.py). Blocks do "
+             "not end in a word the library culls on purpose (of/the/in/and) and 'ALL' is not placed before ' of <Twp/Rge>' "
+             "(the guide's false-match rule). Bounds: <= 3 Twp/Rge groups x <= 3 section groups.",
+        design_ref="§5.1, §6 C01"),
 }
 
 NOT_APPLICABLE = {
